@@ -76,7 +76,7 @@ def run(prop, tier, seed, work, ev):
     files.append(("JSON texts: numerals, strings, structures", c, "json", None))
     # hand-shaped families of the evaluation engine: texts that coincide under normalisation (a cache that exists under one feature
     # set only would show here), aliasing, per-element temporaries
-    for fam in ("confuse", "alias", "inflate", "digitkeys", "cmpchain", "absent", "nested", "mapnull", "twoslice", "msnull", "firstnull", "bykeys"):
+    for fam in ("confuse", "alias", "inflate", "digitkeys", "cmpchain", "absent", "nested", "mapnull", "twoslice", "msnull", "firstnull", "bykeys", "errpair", "keyorder", "hash", "scalarties"):
         c = work.path("pool.%s.cases" % fam)
         with open(c, "w") as f:
             for line in open(eng_eval.POOLS):
